@@ -211,6 +211,22 @@ fn run_case(idx: usize, line: &str, dir: &str, stage_bin: &str, out: &mut Out) {
     let mut got_out: Option<Vec<u8>> = None;
     let mut got_err: Option<Vec<u8>> = None;
     let mut status: Option<ExitStatus> = None;
+    // an unrelated child started while the handle is alive and living on after it (sib=1): it must not matter
+    let want_sibling = spec.get("sib") == "1";
+    let sibling: std::cell::RefCell<Option<subprocess::Popen>> = std::cell::RefCell::new(None);
+    let stage_bin_s = stage_bin.to_string();
+    let at_user = || {
+        trace::log(format_args!("user"));
+        if want_sibling {
+            let was = trace::set_on(false);
+            let r = subprocess::Popen::create(
+                &[stage_bin_s.as_str(), "stage", "Z"],
+                subprocess::PopenConfig { detached: true, ..Default::default() },
+            );
+            trace::set_on(was);
+            *sibling.borrow_mut() = r.ok();
+        }
+    };
     CUR.store(idx as u64, SeqCst);
     DEADLINE_MS.store(now_ms() + 5000, SeqCst);
     unsafe { trace::VERBOSE_WAIT = true };
@@ -249,43 +265,43 @@ fn run_case(idx: usize, line: &str, dir: &str, stage_bin: &str, out: &mut Out) {
         match (pv, term.as_str()) {
             (Pv::One(e), "popen") => {
                 let p = e.popen().map_err(e2s)?;
-                trace::log(format_args!("user"));
+                at_user();
                 drop(p);
             }
             (Pv::Many(p), "popen") => {
                 let v = p.popen().map_err(e2s)?;
-                trace::log(format_args!("user"));
+                at_user();
                 drop(v);
             }
             (Pv::One(e), "join") => status = Some(e.join().map_err(e2s)?),
             (Pv::Many(p), "join") => status = Some(p.join().map_err(e2s)?),
             (Pv::One(e), "stream_stdout") => {
                 let mut r = e.stream_stdout().map_err(e2s)?;
-                trace::log(format_args!("user"));
+                at_user();
                 user_read(&mut r, &mut got_out);
                 drop(r);
             }
             (Pv::Many(p), "stream_stdout") => {
                 let mut r = p.stream_stdout().map_err(e2s)?;
-                trace::log(format_args!("user"));
+                at_user();
                 user_read(&mut r, &mut got_out);
                 drop(r);
             }
             (Pv::One(e), "stream_stderr") => {
                 let mut r = e.stream_stderr().map_err(e2s)?;
-                trace::log(format_args!("user"));
+                at_user();
                 user_read(&mut r, &mut got_err);
                 drop(r);
             }
             (Pv::One(e), "stream_stdin") => {
                 let mut w = e.stream_stdin().map_err(e2s)?;
-                trace::log(format_args!("user"));
+                at_user();
                 user_write(&mut w);
                 drop(w);
             }
             (Pv::Many(p), "stream_stdin") => {
                 let mut w = p.stream_stdin().map_err(e2s)?;
-                trace::log(format_args!("user"));
+                at_user();
                 user_write(&mut w);
                 drop(w);
             }
@@ -303,7 +319,7 @@ fn run_case(idx: usize, line: &str, dir: &str, stage_bin: &str, out: &mut Out) {
             }
             (Pv::One(e), "communicate") => {
                 let mut c = e.communicate().map_err(e2s)?;
-                trace::log(format_args!("user"));
+                at_user();
                 if rd == "all" {
                     if let Ok((o, er)) = c.read() {
                         got_out = o;
@@ -314,7 +330,7 @@ fn run_case(idx: usize, line: &str, dir: &str, stage_bin: &str, out: &mut Out) {
             }
             (Pv::Many(p), "communicate") => {
                 let mut c = p.communicate().map_err(e2s)?;
-                trace::log(format_args!("user"));
+                at_user();
                 if rd == "all" {
                     if let Ok((o, er)) = c.read() {
                         got_out = o;
@@ -331,6 +347,10 @@ fn run_case(idx: usize, line: &str, dir: &str, stage_bin: &str, out: &mut Out) {
     let ms = t0.elapsed().as_millis();
     let (log, _, _) = trace::stop();
     unsafe { trace::VERBOSE_WAIT = false };
+    if let Some(mut sp) = sibling.borrow_mut().take() {
+        let _ = sp.kill();
+        let _ = sp.wait();
+    }
     DEADLINE_MS.store(u64::MAX, SeqCst);
     let fds_after = count_fds();
     // what is left of the attempt, per child: z = exited but unreaped when the handle was gone,
